@@ -31,14 +31,21 @@ CFG = Cfg(max_depth=3, theories={"bool", "int", "real", "bv", "arr", "uf", "str"
 
 
 def check_history(run, probe, history, probes, oob):
-    envA, envB = Environment(), Environment()
+    from vf.checks import c15
+    worldA = c15.World()
+    envA, envB = worldA.env, Environment()
     used = set()
     for call in history:
+        if call[0] == "!fail":
+            # a call that raises is part of what the environment was used for before
+            if c15.do_fail(worldA, call[1]):
+                run.cls("history-with-failing-call")
+            continue
         run_call(envA, call)
         used.add(call[0])
     case = {"probe": probe, "history": history, "probes": probes}
     nontriv = any(p[0] in used for p in probes)
-    run.case(key=(probe, [(c[0], c[2]) for c in history]), nontrivial=nontriv,
+    run.case(key=(probe, [(c[0], c[2] if len(c) > 2 else None) for c in history]), nontrivial=nontriv,
              sample={"probe": show(probe, 120), "history": [c[0] for c in history]} if len(history) > 8 else None)
     for call in probes:
         a = run_call(envA, call)
@@ -147,6 +154,10 @@ def gen_case(rnd):
     if g.pct(50):
         rel.append(g.term(g.ty(), 2))
     history = [random_call(g, g.choice(rel)) for _ in range(g.rnd.randint(5, 25))]
+    if g.pct(35):
+        from vf.checks import c15
+        for _ in range(g.rnd.randint(1, 3)):
+            history.insert(g.rnd.randrange(len(history) + 1), ("!fail", c15.gen_fail(g, probe, rel)))
     try:
         t = reftype(probe)
     except IllTyped:
